@@ -185,3 +185,74 @@ def narrow_int_variants(v):
         f = (a + shift) * fac
         out.append((label, f.astype(dt), f.copy()))
     return out
+
+
+def refill_oracle(ctx, clause, fns, rng, make, n_rep=6, inputs_extra=None):
+    """the result of an array function depends on the CONTENT of its argument, not on the identity of the array object: analyse a buffer,
+    refill the SAME ndarray object in place with another record, analyse again -> must equal the analysis of a fresh array with that
+    content (no memo keyed on id() / a weak reference).  fns: {label: f(array)}; make(rng) -> float ndarray (same length each time)."""
+    from core import call_impl
+    for _ in range(n_rep):
+        first, second = make(rng), make(rng)
+        if first.shape != second.shape:
+            continue
+        for label, f in fns.items():
+            buf = np.array(first, copy=True)
+            r1 = call_impl(f, buf)
+            op = rng.choice(['refill', 'negate', 'one-sample'])
+            if op == 'refill':
+                buf[...] = second
+            elif op == 'negate':
+                buf *= -1.0
+            else:
+                buf[rng.randrange(len(buf))] += 5.0
+            got = call_impl(f, buf)                               # FIRST the same object (a 'last call' memo still points at it) ...
+            want = call_impl(f, np.array(buf, copy=True))         # ... then a fresh array with the same content
+            ok = want[0] == got[0] and (want[0] != 'ok' or _same_any(want[1], got[1]))
+            ctx.hist('same array object changed in place and analysed again/' + op)
+            ctx.oracle(clause % label, ok, {'first_content': first, 'then_in_place': op, 'content_at_second_call': np.array(buf, copy=True), **(inputs_extra or {})},
+                       detail=None if ok else {'fresh array': want[1] if want[0] != 'ok' else _brief_any(want[1]), 'same object': got[1] if got[0] != 'ok' else _brief_any(got[1]),
+                                               'first call': r1[0]})
+
+
+def _same_any(a, b):
+    if isinstance(a, tuple) or isinstance(b, tuple):
+        return isinstance(a, tuple) and isinstance(b, tuple) and len(a) == len(b) and all(_same_any(x, y) for x, y in zip(a, b))
+    a, b = np.asarray(a), np.asarray(b)
+    return a.shape == b.shape and bool(np.array_equal(a, b, equal_nan=True) if a.dtype.kind in 'fc' else np.array_equal(a, b))
+
+
+def _brief_any(r):
+    if isinstance(r, tuple):
+        return [_brief_any(x) for x in r]
+    a = np.asarray(r).reshape(-1)
+    return a[:8].tolist()
+
+
+def dt_variants(dt):
+    """the same time step held by other objects a caller may plausibly pass (np.load(...)['dt'] is a 0-d array): (label, object)"""
+    out = [('np.float64', np.float64(dt)), ('0-d array', np.array(float(dt))), ('1-element array', np.array([float(dt)]))]
+    if float(np.float32(dt)) == float(dt):
+        out.append(('np.float32', np.float32(dt)))
+    if float(dt) == int(dt):
+        out.append(('int', int(dt)))
+    return out
+
+
+def dt_oracle(ctx, clause, f, rng, dt, same, inputs):
+    """f(dt_object) -> result.  For every variant: the dt object is unchanged by the call, a second call gives the same result, and the
+    result equals that for the plain float (where the variant is accepted; a loud TypeError/ValueError is a restriction of the domain)"""
+    from core import call_impl
+    base = call_impl(f, float(dt))
+    if base[0] != 'ok':
+        return
+    for label, obj in dt_variants(dt):
+        keep = np.array(obj, copy=True)
+        r1 = call_impl(f, obj)
+        unchanged = np.array_equal(np.asarray(obj), keep) and np.asarray(obj).dtype == keep.dtype
+        r2 = call_impl(f, obj)
+        ctx.hist('dt held by/' + label + ('' if r1[0] == 'ok' else ' (rejected: %s)' % r1[1]))
+        ok = unchanged and r1[0] == r2[0] and (r1[0] != 'ok' or (same(r1[1], r2[1]) and (label == '1-element array' or same(r1[1], base[1]))))
+        ctx.oracle(clause, ok, {**inputs, 'dt': float(dt), 'dt_held_by': label},
+                   detail=None if ok else {'dt_object_unchanged': bool(unchanged), 'dt_object_now': np.asarray(obj).tolist(), 'first_call': r1[0] if r1[0] != 'ok' else 'result',
+                                           'second_call_same': r1[0] == r2[0] and (r1[0] != 'ok' or same(r1[1], r2[1]))})
